@@ -12,6 +12,7 @@ import (
 	"verifharness/mon"
 	"verifharness/refbmc"
 
+	"github.com/cenkalti/backoff/v4"
 	"github.com/gebn/bmc"
 	"github.com/gebn/bmc/pkg/dcmi"
 	"github.com/gebn/bmc/pkg/ipmi"
@@ -128,6 +129,7 @@ func c10Gen(tier string, seed int64) []ev.Case {
 	}
 	// callers' contexts without a deadline: each attempt must still be bounded
 	cs = append(cs, ev.MkCase("batch", c10Batch{Mode: "nodeadline", Seed: seed}))
+	cs = append(cs, ev.MkCase("batch", c10Batch{Mode: "policies", Seed: seed}))
 	// every completion code, alone and after a retry
 	for _, cmd := range c10CmdsSL {
 		cs = append(cs, ev.MkCase("batch", c10Batch{Mode: "sl", Cmd: cmd, K: -1, Seed: seed}))
@@ -164,6 +166,8 @@ func c10Exec(run *ev.Run, c ev.Case) {
 		switch b.Mode {
 		case "nodeadline":
 			c10NoDeadline(run, b.Seed)
+		case "policies":
+			c10Policies(run, b.Seed)
 		case "hs":
 			tot := c10Total(c10HSRetry, []string{"ok"}, b.K)
 			for i := b.From; i < b.To && i < tot; i++ {
@@ -583,6 +587,69 @@ func staleDeadlineAfterLoss(sends []memtr.SendRec) int {
 // transport must nevertheless be handed a deadline for every attempt (the
 // per-request timeout), or a lost reply would block the call for ever instead
 // of being retried (session-less) or ending the command (in a session).
+// c10Policies: the connection's retry policy is consulted per command. (a) A policy with an elapsed-time
+// budget (cenkalti's ExponentialBackOff: "give up after MaxElapsedTime") measures a command's own
+// retrying, not the idle time since the connection last succeeded. (b) A policy with a retry count
+// gives every command its own count, also the command after one that used its count up.
+func c10Policies(run *ev.Run, seed int64) {
+	for mi, mode := range []string{"sl", "in"} {
+		for variant := 0; variant < 2; variant++ {
+			run.Eval(1)
+			cs := ev.MkCase("batch", c10Batch{Mode: "policies", Seed: seed})
+			r := rng(seed+int64(mi*2+variant), "c10policies")
+			se := NewScriptEnv(defaultCfg(r), memtr.Window)
+			var policy backoff.BackOff
+			if variant == 0 {
+				eb := backoff.NewExponentialBackOff()
+				eb.InitialInterval, eb.MaxInterval, eb.MaxElapsedTime = time.Millisecond, 2*time.Millisecond, 150*time.Millisecond
+				policy = eb
+			} else {
+				policy = backoff.WithMaxRetries(&backoff.ZeroBackOff{}, 3)
+			}
+			se.ST = bmc.VerifNewV2SessionlessTransport(se.T, 10*time.Second, policy)
+			var conn bmc.Connection = se.ST
+			kind := "sl-guid"
+			if mode == "in" {
+				ctx, cancel := se.LimitCtx(20)
+				s, err := se.OpenSession(ctx, stdSuites()[int(seed+int64(variant))%9])
+				cancel()
+				if err != nil {
+					run.Violation("C10:handshake-failed", err.Error(), cs, nil)
+					continue
+				}
+				conn, kind = s, "devid"
+			}
+			call := func(script []string, max int) CallResult {
+				cmd, okBody, minBody, _, _ := c10Cmd(kind)
+				return se.Run(script, okBody, minBody, 0, max, func(ctx context.Context) (ipmi.CompletionCode, error) { return conn.SendCommand(ctx, cmd) })
+			}
+			desc := fmt.Sprintf("mode %s, retry policy %T", mode, policy)
+			if res := call(nil, 4); res.Err != nil || res.Panic != nil {
+				run.Violation("C10:policy-baseline", fmt.Sprintf("%s: a command answered at once failed: %v %v", desc, res.Err, res.Panic), cs, nil)
+				continue
+			}
+			if variant == 0 {
+				time.Sleep(300 * time.Millisecond) // the connection idles for longer than the policy's budget
+				res := call([]string{"busy"}, 6)
+				run.Nontrivial("policy-idle|" + mode)
+				if res.Err != nil || len(res.Sends) != 2 {
+					run.Violation("C10:retry-budget-spans-idle-time", fmt.Sprintf("%s (gives up 150 ms after a command starts retrying): after 300 ms without traffic a command answered node busy once was transmitted %d time(s) and returned err=%v; expected the retransmission and the answer", desc, len(res.Sends), res.Err), cs, nil)
+				}
+				continue
+			}
+			gaveUp := call([]string{"busy", "tmo", "busy", "busy", "busy", "busy", "busy"}, 12)
+			res := call([]string{"busy"}, 6)
+			run.Nontrivial("policy-count|" + mode)
+			if gaveUp.Err == nil {
+				run.Observe("bounded-policy-did-not-give-up", 1)
+			}
+			if res.Err != nil || len(res.Sends) != 2 {
+				run.Violation("C10:retry-count-carried-over", fmt.Sprintf("%s (three retries per command): after a command that used its retries up (%d transmissions, err=%v) the next command, answered node busy once, was transmitted %d time(s) and returned err=%v; expected the retransmission and the answer", desc, len(gaveUp.Sends), gaveUp.Err, len(res.Sends), res.Err), cs, nil)
+			}
+		}
+	}
+}
+
 func c10NoDeadline(run *ev.Run, seed int64) {
 	for mi, mode := range []string{"sl", "in", "hs"} {
 		for _, script := range [][]string{nil, {"busy"}, {"garbage:noise", "tmo"}, {"lost"}} {
